@@ -129,7 +129,7 @@ claim("C18",
       "strum's Dialect::from_str is an uninterpreted partial function (the name table itself is derive output); HashMap lookup of the header "
       "and translate_query are external; the resolver-independence clause is argued, not checked.")
 
-prop("C14", ["prql_prec", "fmt_strings", "fmt_interp", "fmt_names", "interp_ident", "fmt_width"],
+prop("C14", ["prql_prec", "fmt_strings", "fmt_interp", "fmt_names", "interp_ident", "fmt_width", "lex_strings"],
      not_covered="line breaking (SeparatedExprs), idempotence, the other arms of ExprKind::write (unary / range / call "
                  "operands inherit binary_position: the rows quantify over every inherited value), string escaping beyond the delimiter length")
 claim("C14",
@@ -139,7 +139,7 @@ claim("C14",
       "(parent position, child kind), for every inherited position / flag / outer context: no parentheses ==> the PRQL grammar re-attaches the child "
       "to the same parent (FP1.*; the grammar's Pratt table is extracted from parser/expr.rs and is itself checked against the documented table, "
       "PP1.*); identifiers are written bare only if they are not lexer keywords, in both ident writers (WI1/2, DI1/2, FP2.*, FP3.*); the string "
-      "delimiter run is odd and longer than any quote run (QS2). the text printed inside a string literal (escape_all_except_quotes, loop proof) is one piece per character, each of which the lexer decodes to that character (fmt_strings EQ1); quote_string (whole function) prints `q^n s q^n` with n odd only when s neither starts nor ends with q and has no run of n q's, and otherwise escapes the double quotes - so the lexer reads the literal back as s (QS3). the text written for a string part of an s- / f-string - four single-character replacements, backslash first - contains no bare quote and no single brace, and undoing the lexer's escapes and then the interpolation parser's brace doubling gives back the part, for all strings (fmt_interp WI1-3; the theory of chained str::replace and of the two decoders is proved by induction in 12 lemmas). NOT proved: line breaking, idempotence, whole-AST round trip.",
+      "delimiter run is odd and longer than any quote run (QS2). the text printed inside a string literal (escape_all_except_quotes, loop proof) is one piece per character, each of which the lexer decodes to that character (fmt_strings EQ1); quote_string (whole function) prints `q^n s q^n` with n odd only when s neither starts nor ends with q and has no run of n q's, and otherwise escapes the double quotes - so the lexer reads the literal back as s (QS3). the text written for a string part of an s- / f-string - four single-character replacements, backslash first - contains no bare quote and no single brace, and undoing the lexer's escapes and then the interpolation parser's brace doubling gives back the part, for all strings (fmt_interp WI1-3; the theory of chained str::replace and of the two decoders is proved by induction in 12 lemmas). what the formatter prints is read back by the lexer character for character: an unescaped string opened by n quotes is the text up to the first run of n quotes VERBATIM - a raw CR LF included (lex_strings MQ1-2, ES1-4: the lexer side of the round trip). NOT proved: line breaking, idempotence, whole-AST round trip.",
       "pr::Expr::write's use of needs_parenthesis and the non-binary arms' option handling are read off the text, not verified; chumsky's pratt() "
       "semantics assumed; regex / HashSet / Formatter / String operations are shims by contract.")
 
@@ -161,8 +161,8 @@ claim("C05",
       "translate_cid, the computation of the inferred name, HashMap / HashSet / NameGenerator are shims by contract; the iteration of retain() and "
       "the search of the Select in the CTE pipeline are dropped by the slices.")
 
-prop("C10", ["resolve_guards", "name_lookup", "lineage_except", "frame_decls", "resolver_unwraps", "module_names", "lower_ident", "pl_fold", "lower_expr", "type_meet", "ident_kinds"],
-     select={"type_meet": lambda n: n.split(".", 1)[1] in ("IR1", "ST1", "ST2", "VT1") or n.split(".", 1)[1] in ("is_relation.safety", "is_super_type_of.safety", "is_super_type_of_opt.safety", "Resolver::validate_type.safety"),
+prop("C10", ["resolve_guards", "name_lookup", "lineage_except", "frame_decls", "resolver_unwraps", "module_names", "lower_ident", "pl_fold", "lower_expr", "type_meet", "ident_kinds", "func_env"],
+     select={"func_env": lambda n: n.split(".", 1)[1] in ("MF1", "MF2", "Resolver::materialize_head.safety"), "type_meet": lambda n: n.split(".", 1)[1] in ("IR1", "ST1", "ST2", "VT1") or n.split(".", 1)[1] in ("is_relation.safety", "is_super_type_of.safety", "is_super_type_of_opt.safety", "Resolver::validate_type.safety"),
              "lower_expr": lambda n: n.split(".", 1)[1] in ("LO2", "LO2i", "LT1", "LX1") or n.endswith("lower_expr.safety"),
              "lineage_except": lambda n: n.split(".", 1)[1] in ("IC1", "IC2", "LE1", "LE2", "LE3", "SH1", "shadow_one.safety", "JL1", "JL2", "join.safety"),
              "resolver_unwraps": lambda n: n.split(".", 1)[1] in ("XA1", "WS1", "exclusion_arg.safety", "wildcard_self.safety")},
@@ -175,7 +175,7 @@ claim("C10",
       "Module::lookup returns the direct hits PLUS the hits through every redirect, for any number of redirects and whatever the direct lookup found "
       "(LK1, loop invariant LK2) - so a second candidate in another relation in scope is never missed; apply_args_to_closure returns Err whenever a named "
       "argument is not consumed by a named parameter of the callee (AA1-2); fold_function returns Err for more positional arguments than parameters, a "
-      "function value for fewer, and evaluates only a saturated call (FA1-3). a name that can only be inferred is created from exactly one inference template, is unknown with none and an error with several (resolve_ident_fallback's decision, RF1-3). what one path finds in one module (lookup_in, whole function; the recursion into sub-modules goes through the contract of Module::lookup): `p.rest` finds the members `rest` of the declaration p - of a nested module what its own lookup finds, of layered modules what the INNERMOST layer that finds anything finds (loop invariant over the reversed stack: shadowing), of anything else nothing - qualified with p; an undeclared name finds nothing; a single declared name finds itself or its `_self` (name_lookup LI1-6; Ident::pop_front PF1). `select !{..}` and the inference of a column of a wildcard table compare names exactly (lineage_except LE1-3, IC1-2); a newly defined column takes its bare name away from an earlier column that carries it and leaves every other column alone (SH1, per column: the loop over the columns is not under contract); the frame of a join is the left frame followed by the right frame, every column exactly as it was, so a bare name both sides answer to stays ambiguous (lineage_except JL1-2, `join` whole); an argument without a frame where a relation is required is an error, and a relation's frame comes into scope as `this` / `that` (resolve_guards GA1-2). what one column of a frame declares: a named column its own name as that column, a star only the `_infer` placeholder of an input that exists in the frame, an unnamed column nothing - every other name untouched (frame_decls FD1-3). in lowering, an identifier that the resolver bound to a node becomes the column recorded for that node, or an error when none is recorded - the name is handed to the database as text only for an identifier without a target (the Ident arm of lower_expr, lower_ident LI1-4); Lowerer::lookup_cid changes nothing, finds a computed node's column or the input's column of that name, and is an error - not a panic - otherwise (LK0-2). the default PL fold, through which the resolver reaches every expression it does not handle itself, hands every sub-expression of a node to the folder - tuple and array items, case conditions and values, s- / f-string items, the name, the positional and the named arguments of a call, the body and the applied arguments of a function, every operand of every transform kind, range bounds, sort keys - so no name escapes resolution inside a nested node (pl_fold PK1 ... PX1, 16 whole functions, loops by invariant over a ghost visit log). what a resolved name becomes is decided by the kind of the declaration it is bound to: a column -> the identifier with that column's id as target, an inferred column -> the node that declares its input, a table -> its lineage and type under no alias, a type -> an error, an instance -> the tuple of its columns (ident_kinds IK1-7: the `match &entry.kind` of Resolver::fold_expr). relation / scalar confusion in the resolver's type check: an argument is accepted only if nothing is expected, the expected type is a super type of the found one - two relations, or kinds that compare structurally - or, for a direct argument only, an array is expected and the argument is no function; the comparison of two function types has no such exception, so a scalar-valued function is not a `transform` (type_meet ST1-2, VT1, IR1; is_super_type_of, is_super_type_of_opt, validate_type, Ty::is_relation whole). relation / scalar confusion at lowering: an operator with a relation-typed operand, a bare tuple, an unapplied function or transform where a scalar is required is an error (lower_expr LO2, LT1, LX1, loop invariant over the operands). NOT proved: that an out-of-frame column has zero candidates (which declarations a frame inserts), relation / "
+      "function value for fewer, and evaluates only a saturated call (FA1-3). a name that can only be inferred is created from exactly one inference template, is unknown with none and an error with several (resolve_ident_fallback's decision, RF1-3). what one path finds in one module (lookup_in, whole function; the recursion into sub-modules goes through the contract of Module::lookup): `p.rest` finds the members `rest` of the declaration p - of a nested module what its own lookup finds, of layered modules what the INNERMOST layer that finds anything finds (loop invariant over the reversed stack: shadowing), of anything else nothing - qualified with p; an undeclared name finds nothing; a single declared name finds itself or its `_self` (name_lookup LI1-6; Ident::pop_front PF1). `select !{..}` and the inference of a column of a wildcard table compare names exactly (lineage_except LE1-3, IC1-2); a newly defined column takes its bare name away from an earlier column that carries it and leaves every other column alone (SH1, per column: the loop over the columns is not under contract); the frame of a join is the left frame followed by the right frame, every column exactly as it was, so a bare name both sides answer to stays ambiguous (lineage_except JL1-2, `join` whole); an argument without a frame where a relation is required is an error, and a relation's frame comes into scope as `this` / `that` (resolve_guards GA1-2). what one column of a frame declares: a named column its own name as that column, a star only the `_infer` placeholder of an input that exists in the frame, an unnamed column nothing - every other name untouched (frame_decls FD1-3). in lowering, an identifier that the resolver bound to a node becomes the column recorded for that node, or an error when none is recorded - the name is handed to the database as text only for an identifier without a target (the Ident arm of lower_expr, lower_ident LI1-4); Lowerer::lookup_cid changes nothing, finds a computed node's column or the input's column of that name, and is an error - not a panic - otherwise (LK0-2). the default PL fold, through which the resolver reaches every expression it does not handle itself, hands every sub-expression of a node to the folder - tuple and array items, case conditions and values, s- / f-string items, the name, the positional and the named arguments of a call, the body and the applied arguments of a function, every operand of every transform kind, range bounds, sort keys - so no name escapes resolution inside a nested node (pl_fold PK1 ... PX1, 16 whole functions, loops by invariant over a ghost visit log). what a resolved name becomes is decided by the kind of the declaration it is bound to: a column -> the identifier with that column's id as target, an inferred column -> the node that declares its input, a table -> its lineage and type under no alias, a type -> an error, an instance -> the tuple of its columns (ident_kinds IK1-7: the `match &entry.kind` of Resolver::fold_expr). the body of a called function is resolved with the module that DECLARES the function as the current module - the root module for a top-level function - so a free name of the body never binds to a declaration of the caller's module (func_env MF1-2). relation / scalar confusion in the resolver's type check: an argument is accepted only if nothing is expected, the expected type is a super type of the found one - two relations, or kinds that compare structurally - or, for a direct argument only, an array is expected and the argument is no function; the comparison of two function types has no such exception, so a scalar-valued function is not a `transform` (type_meet ST1-2, VT1, IR1; is_super_type_of, is_super_type_of_opt, validate_type, Ty::is_relation whole). relation / scalar confusion at lowering: an operator with a relation-typed operand, a bare tuple, an unapplied function or transform where a scalar is required is an error (lower_expr LO2, LT1, LX1, loop invariant over the operands). NOT proved: that an out-of-frame column has zero candidates (which declarations a frame inserts), relation / "
       "scalar confusion in the resolver (validate_expr_type).",
       "HashSet<Ident> is a shim with a ghost set view; in resolve_guards lookup_in is external (it is under contract in name_lookup, where Module::lookup is external: the mutual recursion is cut at the contracts, its termination is not proved); resolve_ident_wildcard, resolve_ident_fallback, ambiguous_error, expr_of_func are "
       "external; the drain loop over named parameters is replaced by its contract (stated in the evidence).")
